@@ -1553,6 +1553,62 @@ impl Stream for ReadStream {
                 if cut == full.len() { push(&mut g, "aes-full", &b, None, false); }
             }
         }
+        // (c5) K-C: WELL-FORMED WinZip-AES entries from an independent producer whose central extra field holds the
+        // AES record together with other records - unknown records and the ZIP64 record (forced on a small entry,
+        // "ZIP64 records carry the values") - in every relative order: APPNOTE 4.5 does not order the records of an
+        // extra field.  `sizes=` is what the PRODUCER recorded (compressed size, uncompressed size, CRC-32 and
+        // length of the plaintext) per entry; the oracle compares it with what the reader reports and decrypts.
+        for _ in 0..(24 * scale) {
+            idx += 1;
+            let mut r = super::rng_for(seed, "read.aesz64", idx);
+            let strength = *r.pick(&[1u8, 2, 3]);
+            let bits = 64 + 64 * strength as usize;
+            let ver = *r.pick(&[1u16, 2]);
+            let inner = *r.pick(&[0u16, 0, 8]);
+            let content = rand_content(&mut r);
+            let salt = r.bytes(bits / 16);
+            let enc = super::aes::encrypt(bits, inner, GEN_PW, &content, &salt);
+            let mut e = Entry::stored(b"aes64", &content);
+            e.crc = if ver == 2 { 0 } else { enc.crc };
+            e.method = 99;
+            e.flags |= 1;
+            e.data = enc.payload.clone();
+            e.version_needed = 51;
+            let aesx = super::aes::aes_extra(ver, strength, inner);
+            e.local_extra = aesx.clone();
+            let unknown = |r: &mut Rng| -> Vec<u8> {
+                let id = *r.pick(&[0x5455u16, 0x7875, 0xcafe, 0x000a]);
+                let pl = { let n = r.below(12) as usize; r.bytes(n) };
+                let mut x = id.to_le_bytes().to_vec();
+                x.extend_from_slice(&(pl.len() as u16).to_le_bytes());
+                x.extend_from_slice(&pl);
+                x
+            };
+            let (before, after) = (r.below(3) as usize, r.below(3) as usize);
+            let mut x = vec![];
+            for _ in 0..before { x.extend_from_slice(&unknown(&mut r)); }
+            x.extend_from_slice(&aesx);
+            for _ in 0..after { x.extend_from_slice(&unknown(&mut r)); }
+            e.central_extra = x;
+            let shape = match r.below(4) {
+                0 => { "no-zip64" }
+                1 => { e.zip64_central = *r.pick(&[(true, true, false), (false, true, false), (true, true, true)]); e.zip64_central_pos = r.below(before as u64 + 1) as usize; "zip64-first" }
+                _ => { e.zip64_central = *r.pick(&[(true, true, false), (false, true, false), (true, false, false), (true, true, true), (false, false, true)]);
+                       e.zip64_central_pos = before + 1 + r.below(after as u64 + 1) as usize; "aes-first" }
+            };
+            let tail = if after > 0 { "aes-then-other" } else { "aes-last" };
+            *g.dist.entry(format!("gen.aesz64.{shape}.{tail}")).or_insert(0) += 1;
+            let sizes = format!("{}:{}:{}:{}", e.data.len(), content.len(), crc32fast::hash(&content), content.len());
+            let mut l = Layout::new(vec![e, Entry::stored(b"plain", b"second entry")]);
+            let swap = r.chance(1, 4);
+            if swap { l.entries.swap(0, 1); }
+            let b = mkzip::build(&l).bytes;
+            let sizes = if swap { format!("-;{sizes}") } else { format!("{sizes};-") };
+            match seek_pw_line(&b, GEN_PW) {
+                Some(line) => g.push("seekpw.aes-z64", format!("{line} sizes={sizes}")),
+                None => *g.dist.entry("gen.skipped.schedule-dependent-decoder.pw.aes-z64".into()).or_insert(0) += 1,
+            }
+        }
         // (d) truncations and substitutions of small seeds
         for s in 0..(if thorough { 12 } else { 3 }) {
             let mut r = super::rng_for(seed, "read.seed", s);
@@ -1932,6 +1988,26 @@ impl Stream for ReadStream {
                 }
             } else {
                 f.push(OracleFailure { what: format!("the password changes the number of entries listed: {} vs {}", with_pw.len(), without.len()) });
+            }
+        }
+        // what the PRODUCER recorded for an encrypted entry (class aes-z64): sizes as listed, plaintext as decrypted
+        if let Some(sz) = a.get("sizes") {
+            let ents: Vec<&str> = resp.split(" | ").skip(1).collect();
+            let want: Vec<&str> = sz.split(';').collect();
+            if !resp.starts_with("open=ok") || ents.len() != want.len() {
+                f.push(OracleFailure { what: format!("K-C aes-extra-order: well-formed archive not opened as produced ({} entries): `{}`", want.len(), &resp[..resp.len().min(120)]) });
+            } else {
+                for (i, (e, w)) in ents.iter().zip(want.iter()).enumerate() {
+                    let xs: Vec<&str> = w.split(':').collect();
+                    if xs.len() != 4 { continue; }
+                    let (cs, us) = (meta_field(e, "cs"), meta_field(e, "us"));
+                    if cs != xs[0] || us != xs[1] {
+                        f.push(OracleFailure { what: format!("K-C aes-extra-order: entry {i}: the producer recorded compressed size {} / size {} (central header + ZIP64 record), the reader reports {cs} / {us}", xs[0], xs[1]) });
+                    }
+                    if !e.contains(&format!(" ok:{}:{} byname=", xs[2], xs[3])) {
+                        f.push(OracleFailure { what: format!("K-C aes-extra-order: entry {i}: the right password does not return the producer's plaintext (crc {} len {}): `{}`", xs[2], xs[3], &e[e.len().saturating_sub(90)..]) });
+                    }
+                }
             }
         }
         let exp = match a.get("expect") { Some(e) => e.clone(), None => return f };
